@@ -1146,7 +1146,7 @@ class C18(Check):
         for content in cases:
             style = rng.choice(['u', 'u', '"', "'"])
             want = ''.join(content)
-            pad1, pad2 = rng.choice(['', '', ' ', '\t ']), rng.choice(['', '', ' ', '\n'])
+            pad1, pad2 = rng.choice(['', '', ' ', '\t ', '\f', '\r\n']), rng.choice(['', '', ' ', '\n', '\f', ' \r'])
             edge_ws = linecont = False
             if style == 'u':
                 inner = self.render_url_unquoted(rng, content)
